@@ -791,7 +791,7 @@ func (e *env) runScenario(sc *scenario) {
 				d1 := int(time.Now().UTC().Unix() / 86400)
 				a.N1, a.N2 = d1-sh, 0
 				if d0 != d1 {
-					a.Tz = "east" // midnight passed: either date
+					a.Tz = "race" // midnight passed: either date
 				}
 			} else {
 				// the instant: a boundary of the UTC day or any second of it, given in UTC or in a zone far from it
